@@ -242,8 +242,8 @@ CLASS_RANGES = {
     "byte": [(0, 255)],
     "json_escape": [(0, 31), (34, 34), (92, 92)],
     "abr": [(97, 98), (114, 114)],
-    # structural JSON characters, quote, backslash, a letter and the two bytes of U+00E9
-    "jsonish": [(34, 34), (44, 44), (58, 58), (91, 93), (97, 97), (123, 123), (125, 125)],
+    # tab, newline, structural JSON characters, quote, backslash, a letter
+    "jsonish": [(9, 10), (34, 34), (44, 44), (58, 58), (91, 93), (97, 97), (123, 123), (125, 125)],
 }
 
 # class inclusion facts used to answer membership questions without a solver call
